@@ -13,6 +13,14 @@ CLAIMED={
  'C13':("hand-written Entry codec: exact encoded size (Size == marshalTo's return value == spec function), no buffer overrun in marshalTo (every index/slice obligation), Size <= SizeUpperLimit; protobuf varint helpers; State Size/MarshalTo/SizeUpperLimit; Update.SizeUpperLimit covers the hard state's upper limit; Int mode with exact machine arithmetic","byte-level round trip (decode(encode(x)) == x) is NOT decided (would need the bit-vector mode); gogo-generated map-bearing codecs, snappy, transport frame checks are not under contract; Update.MarshalTo's aggregate bound not decided"),
  'C14':("BlockWriter.Write: never writes the caller's buffer (frame), consumes the whole input, block bookkeeping invariant (a block is emitted exactly at blockSize payload bytes); unbounded","hash/io interfaces and the block callback have assumed contracts; block reader, stream validator, header and shrink logic are not under contract; CRC-32 detection power assumed"),
  'C15':("sender: splitBySnapshotFile produces ceil(size/C) chunks with consecutive ids whose sizes are C except the last and sum to the file size; receiver: Chunk.record accepts only chunk 0 or the next expected chunk from the sender that started the stream, any other chunk leaves the tracked state unchanged; unbounded","validator, file-system effects, finalisation order (addLocked) and path handling are not under contract; chunkKey is an uninterpreted function of (shard, replica, index)"),
+ 'C04':("ordering/typestate obligations: tan multiplexed SaveRaftState returns success only after every record needing durability was fsynced (ghost typestate through a loop invariant); the sharded store skips a hard-state write only if term, vote and commit are all unchanged; the Peer hands out the hard state for persistence whenever any of term/vote/commit changed; tan record writer propagates write errors","persist-before-send ordering in engine.processSteps/node.go is NOT under contract (root-package step loop); db.write/db.sync/getDB have assumed contracts; crash semantics of the file system and Pebble WAL assumed"),
+ 'C08':("recovering from a snapshot: applyOnDisk sets the on-disk index and (for imported snapshots on initial recovery) the already-applied watermark to the snapshot's; restoreRemotes rebuilds all three member maps from the snapshot (witness set exactly the snapshot's); LogReader.Compact never advances the marker beyond the last index and keeps the term at the marker; entryLog.restore","two-run equivalence is a hyper-property (assumed over these obligations); user SM Save/Recover inverse assumed; snapshot meta capture (getSSMeta) trusted; node.go compaction order not under contract"),
+ 'C09':("LogReader (first/last/term/entries/SetRange/Append/Compact) against its abstract range view; tan index: merge/update of index entries and index.update (a write at start truncates everything at and above it, sortedness preserved, log ends at the new range); hard-state cache","Pebble/ordered KV semantics assumed (IterateEntries has an assumed contract); batched/plain entry iterators, tan node states/compaction, composition over arbitrary operation sequences are not under contract"),
+ 'C10':("error flow: a storage error reported by the KV store during saveRaftState/saveSnapshots/saveSnapshot makes the save fail (ghost flag through loop invariants) — this obligation FOUND a genuine defect (return nil on error), now fixed; tan record writer never returns success with a recorded write error","crash-point atomicity of Pebble batches and tan record framing/manifest are assumed; listSnapshots and in-memory write-batch helpers have assumed contracts"),
+ 'C11':("apply discipline: setApplied advances the index by exactly one; update/registerSession/unregisterSession/noop each advance it exactly once to the entry's index and call the user Update at most once; task queue Get/Add/resize never lose, duplicate or reorder tasks; the user SaveSnapshot of a plain SM runs under the apply lock (lockset typestate: Save -> save/concurrentSave -> doSave)","the offload/loaded hand-off between workers, mutex semantics and NativeSM's own locking are assumed; Lookup paths not under contract"),
+ 'C12':("request objects: a recycled RequestState never carries a stale Completed/Committed result; notify/committed send only into an empty capacity-1 channel; a Committed notification is delivered only to the pending config-change request whose key matches","sequential reasoning only (methods atomic under their mutex assumed); proposal/read-index/snapshot tables, gc/expiry and Release/sync.Pool races are not under contract"),
+ 'C16':("publish protocol order as ghost typestate: the flag file is written into the temporary directory before the rename to the final name (FinalizeSnapshot); the recorded snapshot file is replaced only by an atomic rename, never unlinked first (ReplaceSnapshot); saveSnapshots propagates storage errors","that the protocol suffices under the file-system crash model is assumed; processOrphans decision table, snapshotter.Commit order and node.go clean-up are not under contract"),
+ 'C20':("the rewritten snapshot record: membership is exactly the given member list, every previous voter/non-voting/witness not listed is recorded as removed, previous removals kept, NonVotings/Witnesses empty, index/term/type copied, Imported set (map loops proved for arbitrary iteration order)","member-list validation (checkMembers/checkImportSettings), ordering of validation before mutation, log-store import batch and end-to-end restart behaviour are not under contract"),
 }
 NA={
  'C01':"linearizability is a predicate over concurrent client histories under fault schedules; no per-function contract expresses it (its mechanisms are decided under C06, C12, C02, C11)",
